@@ -84,5 +84,71 @@ let triangles = vcast_usize_f64(vsum_map_usize(&tads, |item: &TrianglesAndDegree
         graph.specs.directed ==> is_err_kind(r, ErrorKind::WrongMethod),
         !graph.specs.directed ==> r.is_ok(),
 //@ end
+
+// A5: the four per-kind coefficient functions (HashSet pipelines over triangle records, float formulas) are ASSUMED total: clustering's own obligations
+// are its dispatch and its error channel
+//@ extract fn src/algorithms/cluster/mod.rs get_clustering_directed nobody
+//@ head
+#[verifier::external_body]
+//@ end
+//@ extract fn src/algorithms/cluster/mod.rs get_clustering_directed_weighted nobody
+//@ head
+#[verifier::external_body]
+//@ end
+//@ extract fn src/algorithms/cluster/mod.rs get_clustering_undirected nobody
+//@ head
+#[verifier::external_body]
+//@ end
+//@ extract fn src/algorithms/cluster/mod.rs get_clustering_undirected_weighted nobody
+//@ head
+#[verifier::external_body]
+//@ end
+
+pub open spec fn all_weighted<T: Eq + PartialOrd + Send + Sync, A: Clone>(g: Graph<T, A>) -> bool {
+    forall|i: int| 0 <= i < g.all_edges_seq().len() ==> feq((#[trigger] g.all_edges_seq()[i]).weight, g.all_edges_seq()[i].weight)
+}
+
+//@ extract fn src/algorithms/cluster/mod.rs clustering props=C20
+//@ rewrite
+) -> Result<HashMap<T, f64>, Error>
+//@ with
+) -> (r: Result<HashMap<T, f64>, Error>)
+//@ spec
+    ensures
+        // [C20.clustering.error_channel]
+        graph.specs.multi_edges ==> is_err_kind(r, ErrorKind::WrongMethod),
+        !graph.specs.multi_edges && weighted && !all_weighted(*graph) ==> is_err_kind(r, ErrorKind::EdgeWeightNotSpecified),
+        !graph.specs.multi_edges && (!weighted || all_weighted(*graph)) ==> r.is_ok(),
+//@ end
+
+// R-ext (A5): `c.values().into_iter().filter(..).collect::<Vec<&f64>>()` and `vs.iter().cloned().sum::<f64>() / vs.len() as f64` (float pipeline over a hash map;
+// 0.0 / 0.0 is NaN, not a panic): ASSUMED total
+#[verifier::external_body]
+pub fn vmean_counted<K>(c: &HashMap<K, f64>, count_zeros: bool) -> (r: f64)
+{
+    let vs = c.values().into_iter().filter(|v| count_zeros || v.abs() > 0.0).collect::<Vec<&f64>>();
+    vs.iter().cloned().sum::<f64>() / vs.len() as f64
+}
+//@ extract fn src/algorithms/cluster/mod.rs average_clustering props=C20
+//@ rewrite
+) -> Result<f64, Error>
+//@ with
+) -> (r: Result<f64, Error>)
+//@ rewrite
+let vs = c
+        .values()
+        .into_iter()
+        .filter(|v| count_zeros || v.abs() > 0.0)
+        .collect::<Vec<&f64>>();
+    Ok(vs.iter().cloned().sum::<f64>() / vs.len() as f64)
+//@ with
+Ok(vmean_counted(&c, count_zeros))
+//@ spec
+    ensures
+        // [C20.average_clustering.error_channel]
+        graph.specs.multi_edges ==> is_err_kind(r, ErrorKind::WrongMethod),
+        !graph.specs.multi_edges && weighted && !all_weighted(*graph) ==> is_err_kind(r, ErrorKind::EdgeWeightNotSpecified),
+        !graph.specs.multi_edges && (!weighted || all_weighted(*graph)) ==> r.is_ok(),
+//@ end
 } // verus!
 fn main() {}
